@@ -102,6 +102,8 @@ package dns
 //@   pure
 
 //@ func packDomainName [C03 C04 C08]
+//@   callsite "find" findkey: same(arg1, s[compBegin:]) [C04]
+//@   callsite "insert" inskey: same(arg1, s[compBegin:]) [C04]
 //@   requires 0 <= off
 //@   writes msg
 //@   modifies MS.mapLstringJint MS.mapLstringJuint16
